@@ -267,6 +267,115 @@ class C06(RenderProp):
         return case.get("depth", 0) >= 3 and not case.get("_declined")
 
 
+def html_escape5(s):
+    return s.replace("&", "&amp;").replace("<", "&lt;").replace(">", "&gt;").replace('"', "&#34;").replace("'", "&#39;")
+
+
+def py_tags(text):
+    """tag structure as Python's html.parser (a second, independent tokenizer) reads it"""
+    from html.parser import HTMLParser
+    tags = []
+
+    class P(HTMLParser):
+        def handle_starttag(self, tag, attrs):
+            tags.append(("S", tag, tuple(attrs)))
+
+        def handle_endtag(self, tag):
+            tags.append(("E", tag))
+
+        def handle_comment(self, data):
+            tags.append(("C",))
+
+        def handle_decl(self, decl):
+            tags.append(("D",))
+    pr = P(convert_charrefs=True)
+    pr.feed(text)
+    pr.close()
+    return tags
+
+
+class C04(RenderProp):
+    id = "C04"
+    n_quick = 3600
+    n_thorough = 60000
+    required_theorems = ["C04_extract", "C04_matrix", "C04_wrapKind", "C04_escape_table", "C04_escape_safe", "C04_escape_hom", "C04_substitution",
+                         "C04_escape_eq_spec", "C04_print_escaped"]
+    rule = ("every string-carrying expression shape (variable, member, nested member, index, key index, concatenation both ways, conditional both "
+            "branches, || default on undefined and on empty string, &&, function result, method result, join, template literal, array literal) x 7 positions "
+            "(bare, between texts, inside tags, in if / each bodies, after unbuffered code, between brace texts) x hostile strings built from the five significant "
+            "characters, markup fragments, entity-like text, template delimiters, ${}, backticks, multi-byte text, long runs. Oracles: marker substitution on two real "
+            "renders, tag structure unchanged under two independent tokenizers, reference semantics. Non-trivial: hostile string contains one of & < > \" '; distinct by case.")
+
+    def compare(self, case, impl, model, spec):
+        corr, prop, detail = RenderProp.compare(self, case, impl, model, spec)
+        i = out_of(impl)
+        if i[0] == "ok" and isinstance(impl, dict) and "marker_out" in impl:
+            h = case["subst"]["hostile"]
+            m = case["subst"]["marker"]
+            ok_sub = impl.get("marker_class") == "ok" and impl["marker_out"].replace(m, html_escape5(h)) == i[1]
+            ok_tags = [t[:2] for t in py_tags(i[1])] == [t[:2] for t in py_tags(impl["marker_out"])]
+            go_tags = [tuple(t[:2]) for t in impl.get("tok", []) if t[0] in ("S", "E", "C", "D")]
+            ok_tags2 = go_tags == [t[:2] for t in py_tags(impl["marker_out"]) if t[0] in ("S", "E", "C", "D")]
+            if not (ok_sub and ok_tags and ok_tags2):
+                prop = False
+                detail += " | substitution=%s tags=%s gotags=%s marker_out=%r" % (ok_sub, ok_tags, ok_tags2, impl["marker_out"][:200])
+            elif prop is None:
+                prop = True
+        elif i[0] != "ok":
+            prop = False
+            detail += " | render of a string-carrying shape failed"
+        return corr, prop, detail
+
+    def nontrivial(self, case, impl):
+        return any(c in case["subst"]["hostile"] for c in "&<>\"'") and not case.get("_declined")
+
+
+class C05(RenderProp):
+    id = "C05"
+    n_quick = 3000
+    n_thorough = 50000
+    required_theorems = ["C05_trim_only_class", "C05_false_omitted", "C05_value_escaped", "C05_value_no_quote"]
+    rule = ("random attribute lists (0-7 attributes: string literals incl. padded/empty, hostile data strings, numbers as variable/literal/expression/fraction, "
+            "booleans/null/undefined as literal and data, class as literal/variable/array/mixed array/empty/hostile and repeated, unescaped literals, concatenations) plus "
+            "&attributes(obj) spreads (strings, booleans, class+id). Oracle: golang.org/x/net/html tokenizer reads the first tag back; its (name, value) list must equal the "
+            "specification's list, exactly one start tag, text intact. Non-trivial: >= 2 attributes; distinct by case.")
+
+    def compare(self, case, impl, model, spec):
+        corr, _, detail = RenderProp.compare(self, case, impl, model, None)
+        prop = None
+        i = out_of(impl)
+        if isinstance(spec, dict) and spec.get("class") == "ok":
+            if i[0] != "ok":
+                prop = False
+            else:
+                tok = impl.get("tok", [])
+                starts = [t for t in tok if t[0] == "S"]
+                texts = "".join(t[1] for t in tok if t[0] == "T")
+                void = case["doc"][0]["name"] == "input"
+                def norm(attrs):
+                    out = []
+                    for a in attrs:
+                        k, v = a[0], a[1]
+                        if k == "class":
+                            # class is a set of tokens: compare modulo repeated tokens and edge white space
+                            toks = []
+                            for t in v.split():
+                                if t not in toks:
+                                    toks.append(t)
+                            v = " ".join(toks)
+                            if not toks:
+                                continue  # a class value of (Unicode) white space only: no tokens, presence not compared
+                        out.append([k, v])
+                    return out
+                prop = (len(starts) == 1 and norm(starts[0][2]) == norm(spec["attrs"]) and (texts == "body" or void))
+                if not prop:
+                    detail += " | tokenizer read %r expected %r" % (starts[:2], spec["attrs"])
+        return corr, prop, detail
+
+    def nontrivial(self, case, impl):
+        return case.get("nattrs", 0) >= 2 and not case.get("_declined")
+
+
 WS = " \t\r\n"
 
 
@@ -325,4 +434,4 @@ class C13(Prop):
         return "%s/%s" % (case.get("from"), out_of((impl or {}).get("prod"))[0])
 
 
-PROPS = {p.id: p for p in [C01(), C02(), C06(), C13(), C17(), C18()]}
+PROPS = {p.id: p for p in [C01(), C02(), C04(), C05(), C06(), C13(), C17(), C18()]}
